@@ -20,6 +20,7 @@ fn main() {
         "foreign" => shpverif::cmd_foreign::run(&a),
         "types" => shpverif::cmd_types::run(&a),
         "rings" => shpverif::cmd_rings::run(&a),
+        "complete" => shpverif::cmd_complete::run(&a),
         c => {
             eprintln!("unknown command {}", c);
             std::process::exit(2);
